@@ -301,3 +301,11 @@ func TestHashes(t *testing.T) {
 		fmt.Printf("HASH %d %016x %d %s\n", i, out.Stats.TraceHash, out.Stats.Steps, v)
 	}
 }
+
+// TestMintBookmark prints a bookmark produced by this (separate) process: a foreign incarnation for C12.
+func TestMintBookmark(t *testing.T) {
+	if os.Getenv("VERIF_MINT_BOOKMARK") == "" {
+		t.Skip()
+	}
+	fmt.Printf("BOOKMARK %x\n", mintBookmark())
+}
